@@ -135,7 +135,9 @@ func checkRouteCmd(cfg, name, src, dst string, tags, opts []string) error {
 	if d.Src != src || d.Dst != dst {
 		return fmt.Errorf("prefix %q or destination %q cannot be expressed in a route command", src, dst)
 	}
-	if strings.Join(d.Tags, ",") != strings.Join(tags, ",") {
+	// compare the tags one by one: a tag which contains a comma
+	// would otherwise be read back as two tags.
+	if !sameTags(d.Tags, tags) {
 		return fmt.Errorf("tags %q cannot be expressed in a route command", tags)
 	}
 	want := map[string]string{}
@@ -156,6 +158,23 @@ func checkRouteCmd(cfg, name, src, dst string, tags, opts []string) error {
 		}
 	}
 	return d.Validate()
+}
+
+// sameTags reports whether the parsed tags are the registered tags.
+// A single empty tag is written as 'tags ""' which is read back as no tags.
+func sameTags(got, want []string) bool {
+	if len(want) == 1 && want[0] == "" {
+		return len(got) == 0
+	}
+	if len(got) != len(want) {
+		return false
+	}
+	for i := range got {
+		if got[i] != want[i] {
+			return false
+		}
+	}
+	return true
 }
 
 // parseURLPrefixTag expects an input in the form of 'tag-host/path[ opts]'
